@@ -36,12 +36,15 @@ type Path struct {
 	Glob  *ssa.Global
 	Steps []Step
 	View  types.Type // non-nil when the pointer was reinterpreted through unsafe.Pointer
+	Lo    string     // for raw pointers into a slice/string array: valid index range [Lo, Hi)
+	Hi    string
 }
 
 type Step struct {
 	IsIdx bool
 	Idx   string // index term (index sort)
 	Field int
+	Raw   bool // index produced by raw pointer arithmetic: bounds are checked at dereference
 }
 
 func (p *Path) extend(s Step) *Path {
